@@ -9,7 +9,7 @@ Mirrors, branch by branch:
   * `ModularRandIter`, `GIV_randIter`, `GeneralRingRandIter`, `GeneralRingNonZeroRandIter`   src/kernel/system/givranditer.h
   * `GFqDom::random/nonzerorandom`    src/kernel/field/gfq.inl
   * `Poly1Dom::random` of a degree    src/library/poly1/givpoly1misc.inl
-  * `RecInt::rand` (ruint, rmint)     src/kernel/recint/rurandom.h, rmrandom.h  (on an abstract stream of 64-bit words = mt19937_64's)
+  * `RecInt::rand` (ruint, rint, rmint) and everything that has a destination: Model/RandomDest.lean
 
 Machine words are `Int` with explicit `wrap…` where the C++ converts (Prim/Word.lean).  Loops that wait for a
 non-zero draw take fuel.  GMP's generator and `std::mt19937_64` are *abstract*: the theorems of Props/C20.lean hold
@@ -137,18 +137,6 @@ def between2exp (m M : Nat) (fuel : Nat) (st : σ) : Option (Int × σ) :=
 /-- `Integer::random<AP>()`: `rez = Integer::random(sizeof(mp_limb_t)*8); if (!AP) if (RandBool()) negin(rez)` -/
 def random0 (ap : Bool) (st : σ) : Int × σ := signTail G ap (G.bits st 64).1 (G.bits st 64).2
 
-/-- `RandomIntegerIterator<U,E>::nextRandom` -/
-def riiNext (u e : Bool) (bits : Nat) (r0 : Int) (st : σ) : Int × σ :=
-  if e then exact2exp G u bits r0 st else lessthan2exp G u bits st
-
-/-- `k` successive values of a `RandomIntegerIterator` (each `nextRandom` overwrites the same Integer) -/
-def riiSeq (u e : Bool) (bits : Nat) : Nat → Int → σ → List Int × σ
-  | 0, _, st => ([], st)
-  | k+1, r0, st =>
-    let d := riiNext G u e bits r0 st
-    let rest := riiSeq u e bits k d.1 d.2
-    (d.1 :: rest.1, rest.2)
-
 end Int
 
 /-! ## Modular<integral> (modular-integral.h/.inl) and the iterators of givranditer.h -/
@@ -210,17 +198,6 @@ def modStep (bits : Nat) (sgn : Bool) (p : Int) (fn : Nat) (size : Int) (fuel : 
   | 7 => modNonzeroSz bits sgn p size fuel g
   | _ => none
 
-/-- `n` successive elements from generator state `g` -/
-def modSeq (bits : Nat) (sgn : Bool) (p : Int) (fn : Nat) (size : Int) (fuel : Nat) : Nat → Int → Option (List Int)
-  | 0, _ => some []
-  | n+1, g =>
-    match modStep bits sgn p fn size fuel g with
-    | none => none
-    | some eg =>
-      match modSeq bits sgn p fn size fuel n eg.2 with
-      | none => none
-      | some l => some (eg.1 :: l)
-
 /-! ## GFqDom (gfq.inl) -/
 
 /-- `random(g, a, s)`: `a = Rep((UTT)(g()) % s); return a = (a<0 ? a+(Rep)_q : a)`; `bits` = width of `Rep`/`UTT` -/
@@ -252,16 +229,6 @@ where
       if (gfqRandom bits q (sampleSize q 0) g).1 = 0 then gfqNzLoop f (gfqRandom bits q (sampleSize q 0) g).2
       else some (gfqRandom bits q (sampleSize q 0) g)
 
-def gfqSeq (bits : Nat) (q : Int) (fn : Nat) (size : Int) (fuel : Nat) : Nat → Int → Option (List Int)
-  | 0, _ => some []
-  | n+1, g =>
-    match gfqStep bits q fn size fuel g with
-    | none => none
-    | some eg =>
-      match gfqSeq bits q fn size fuel n eg.2 with
-      | none => none
-      | some l => some (eg.1 :: l)
-
 /-! ## Poly1Dom<Modular<int32_t>>::random(g, r, Degree d) (givpoly1misc.inl) -/
 
 /-- the lower coefficients: `for (int i = d; i--;) _domain.random(g, r[i])` — drawn from index `d-1` down to 0;
@@ -286,64 +253,5 @@ def polyRandom (bits : Nat) (sgn : Bool) (p : Int) (d : Nat) (fuel : Nat) (g : I
     the `nonzerorandom` forms forward to the `random` forms. -/
 def polyRandomDeg (bits : Nat) (sgn : Bool) (p : Int) (d : Int) (fuel : Nat) (g : Int) : Option (List Int × Int) :=
   if d < 0 then some ([], g) else polyRandom bits sgn p d.toNat fuel g
-
-/-! ## RecInt::rand -/
-
-/-- `rand(ruint<K>&)`: `rand(a.High); rand(a.Low);` down to `a.Value = rand_gen()`: the limbs are filled from the most
-    significant one; `ws` are the successive generator outputs.  Returns (value, unused words). -/
-def ruFold : Nat → Int → List Int → Int × List Int
-  | 0, acc, ws => (acc, ws)
-  | n+1, acc, [] => ruFold n (acc * 18446744073709551616) []      -- (never reached with enough words)
-  | n+1, acc, w :: ws => ruFold n (acc * 18446744073709551616 + w) ws
-
-/-- number of limbs of `ruint<K>` (K ≥ 6) -/
-def ruLimbs (K : Nat) : Nat := 2 ^ (K - 6)
-
-def ruRand (K : Nat) (ws : List Int) : Int × List Int := ruFold (ruLimbs K) 0 ws
-
-/-- `rand(rmint<K,MGI>&)`: `rand(a.Value); get_ready(a)` = `mod_n(a.Value, p)` -/
-def rmRand (K : Nat) (p : Int) (ws : List Int) : Int × List Int := ((ruRand K ws).1 % p, (ruRand K ws).2)
-
-/-- `rand(rmint<K,MGA>&)`: `get_ready` = `to_mg`: `a.Value = (a.Value · 2^(2^K)) mod p` -/
-def rmRandMg (K : Nat) (p : Int) (ws : List Int) : Int × List Int :=
-  (((ruRand K ws).1 * 2 ^ (2 ^ K)) % p, (ruRand K ws).2)
-
-/-! ## the RecInt-backed rings on the generator they are given (modular-ruint.h, montgomery-ruint.h, rurandom.h) -/
-
-/-- `rand(ruint<6>&, g)`: `a.Value = 0; for (i < 4) a.Value = (a.Value << 16) | (limb(g()) & 0xFFFF)` — four draws,
-    16 low bits each, most significant first.  Returns (limb, generator state). -/
-def limbG (g : Int) : Int × Int :=
-  let g1 := givNext g
-  let g2 := givNext g1
-  let g3 := givNext g2
-  let g4 := givNext g3
-  ((((g1 % 65536) * 65536 + g2 % 65536) * 65536 + g3 % 65536) * 65536 + g4 % 65536, g4)
-
-/-- `rand(ruint<K>&, g)`: `rand(a.High, g); rand(a.Low, g)` down to the limbs: most significant limb first -/
-def ruRandG : Nat → Int → Int → Int × Int
-  | 0, acc, g => (acc, g)
-  | n+1, acc, g => ruRandG n (acc * 18446744073709551616 + (limbG g).1) (limbG g).2
-
-/-- `Modular<ruint<K>>::random(g, r)` and `Montgomery<ruint<K>>::random(g, r)`: `RecInt::rand(r, g); mod_n(r, _p)` -/
-def ruRingRandom (K : Nat) (p g : Int) : Int × Int :=
-  ((ruRandG (ruLimbs K) 0 g).1 % p, (ruRandG (ruLimbs K) 0 g).2)
-
-/-- `nonzerorandom(g, a)`: `while (isZero(random(g, a))) {}` -/
-def ruRingNonzero (K : Nat) (p : Int) : Nat → Int → Option (Int × Int)
-  | 0, _ => none
-  | f+1, g =>
-    if (ruRingRandom K p g).1 = 0 then ruRingNonzero K p f (ruRingRandom K p g).2
-    else some (ruRingRandom K p g)
-
-/-- fn 0 `ModularRandIter`, 4 `random(g,r)`; 3 `GeneralRingNonZeroRandIter`, 5 `nonzerorandom(g,r)` -/
-def ruRingSeq (K : Nat) (p : Int) (fn : Nat) (fuel : Nat) : Nat → Int → Option (List Int)
-  | 0, _ => some []
-  | n+1, g =>
-    match (if fn = 0 ∨ fn = 4 then some (ruRingRandom K p g) else if fn = 3 ∨ fn = 5 then ruRingNonzero K p fuel g else none) with
-    | none => none
-    | some eg =>
-      match ruRingSeq K p fn fuel n eg.2 with
-      | none => none
-      | some l => some (eg.1 :: l)
 
 end Givaro.Model.Random
